@@ -5,6 +5,7 @@ import Drpc.Wire.Reader
   Tie (T1) for C09: reader.go has the fingerprint the model was written against, and the
   constants the model uses are the ones in the source.
 -/
+set_option maxRecDepth 100000
 namespace Drpc.Tie.C09
 open Drpc
 
